@@ -455,7 +455,8 @@ def classify_sanitizer(stderr, text):
         m = re.search(r"m\.f90:(\d+):\d+: runtime error: (.*)", stderr)
         if m:
             site = stmt_for_line(text, int(m.group(1)))
-            msg = re.sub(r"-?\d{7,}", "N", m.group(2))      # (wild values differ from process to process)
+            # (wild values and addresses differ from process to process)
+            msg = re.sub(r"-?\d{7,}", "N", re.sub(r"0x[0-9a-fA-F]+", "0x..", m.group(2)))
             cls = "null-deref" if "null pointer" in msg else "ubsan"
             return cls, _site_kind(site), "%s at [%s]" % (msg[:120], site)
     if "ERROR: LeakSanitizer" in stderr:
@@ -621,7 +622,16 @@ def run_fortran_engine(ctx, prop):
                    MALLOC_PERTURB_="165")
         n_call = n_runs
         first_raise = next((i for i, r in enumerate(ref) if r["outcome"] == "raised"), None)
-        q = subprocess.run([os.path.join(d, "prog")], input="%d\n" % n_call, cwd=d, env=env,
+        # address-space layout randomisation off: what a program with undefined behaviour does (a stale
+        # pointer, an uninitialised component) then repeats from run to run, so such failures replay
+        cmd = [os.path.join(d, "prog")]
+        if _SETARCH[0] is None:
+            _SETARCH[0] = shutil.which("setarch") or ""
+            if _SETARCH[0] and subprocess.run([_SETARCH[0], "-R", "true"], capture_output=True).returncode != 0:
+                _SETARCH[0] = ""
+        if _SETARCH[0]:
+            cmd = [_SETARCH[0], "-R"] + cmd
+        q = subprocess.run(cmd, input="%d\n" % n_call, cwd=d, env=env,
                            capture_output=True, text=True, timeout=120)
         steps, done = parse_output(q.stdout)
         stderr = q.stderr
@@ -722,6 +732,7 @@ def _excerpt(text, lineno, radius=4):
 
 
 _CUR_TEXT = [None]
+_SETARCH = [None]
 
 
 def _trim(s, n=1200):
